@@ -445,6 +445,10 @@ export class SchemaPrintingContext {
     delete this.inProgressDefinitions[name];
   }
 
+  abandonDefinition(name: string): void {
+    delete this.inProgressDefinitions[name];
+  }
+
   exportDefinitions():
     | Record<string, JSONSchema7Definition>
     | Record<string, Record<string, JSONSchema7Definition>> {
@@ -1805,8 +1809,14 @@ export class AnyOfDiscriminatedRuntype extends BaseRuntype {
       return;
     }
     printingContext.markDefinitionInProgress(name);
-    const body = target.schema(ctx);
-    printingContext.storeDefinition(name, body);
+    try {
+      const body = target.schema(ctx);
+      printingContext.storeDefinition(name, body);
+    } catch (e) {
+      // do not leave the name marked: later printers would emit a $ref that is never defined
+      printingContext.abandonDefinition(name);
+      throw e;
+    }
   }
 
   private ensureSchemaVariantRef(
@@ -2315,9 +2325,15 @@ export abstract class BaseRefRuntype extends BaseRuntype {
       }
       if (!printingContext.hasDefinition(name) && !printingContext.isDefinitionInProgress(name)) {
         printingContext.markDefinitionInProgress(name);
-        const schemaTarget = printingContext.getNamedTypeSchemaOverride(name) ?? to;
-        const body = schemaTarget.schema(ctx);
-        printingContext.storeDefinition(name, body);
+        try {
+          const schemaTarget = printingContext.getNamedTypeSchemaOverride(name) ?? to;
+          const body = schemaTarget.schema(ctx);
+          printingContext.storeDefinition(name, body);
+        } catch (e) {
+          // do not leave the name marked: later printers would emit a $ref that is never defined
+          printingContext.abandonDefinition(name);
+          throw e;
+        }
       }
       return annotateSchema(this.metadata, { $ref: printingContext.getRef(name) });
     }
